@@ -22,7 +22,8 @@ EXPECTED_PROBES = ['ping_between_fragments', 'many_pings_one_read',
                    'auto_pong_off', 'ping_after_client_close',
                    'pong_write_failed', 'app_write_after_pong_checked',
                    'violation_behind_pings', 'compression_negotiated',
-                   'threaded_close_vs_pong']
+                   'threaded_close_vs_pong', 'refused_close_call_then_pings',
+                   'two_connections_interleaved']
 
 
 TSLOT = 3000
@@ -46,7 +47,8 @@ def _tinfo(b):
 def plan(tier):
     return [('seeded', 12000 if tier == 'quick' else 250000),
             ('threaded_sweep', len(TBASES) * TSLOT * 2),
-            ('threaded_random', 300 if tier == 'quick' else 30000)]
+            ('threaded_random', 300 if tier == 'quick' else 30000),
+            ('pair', 800 if tier == 'quick' else 30000)]
 
 
 def _ping(rng):
@@ -124,6 +126,19 @@ def _execute_threaded(case):
 def make_case(family, i, rng, tier):
     if family.startswith('threaded'):
         return _threaded_case(family, i, rng)
+    if family == 'pair':
+        cs = []
+        for _ in range(2):
+            c = make_case('seeded', i, rng, tier)
+            while c['mode'] == 'fault':
+                c = make_case('seeded', i, rng, tier)
+            c['gaps'] = [rng.choice([0, 0, 1000])]
+            if c.get('seg') == 'bytes':
+                c['seg'] = 'cuts'
+            cs.append(c)
+        n = rng.choice([2, 3, 5, 8])
+        return {'pair': cs,
+                'order': [rng.randrange(2) for _ in range(n)] + [0, 1]}
     items = []
     for _ in range(rng.choice([1, 2, 4, 8, 14])):
         r = rng.random()
@@ -141,7 +156,8 @@ def make_case(family, i, rng, tier):
             'compress': rng.random() < 0.25}
     if rng.random() < 0.3:
         case['sclose'] = {'code': 1000, 'reason': u'done'}
-    mode = rng.choice(['plain', 'plain', 'app_close', 'fault', 'bad_tail'])
+    mode = rng.choice(['plain', 'plain', 'app_close', 'fault', 'bad_tail',
+                       'bad_close'])
     case['mode'] = mode
     enc = ST.encode_items(items)
     if mode == 'app_close' and enc.expected:
@@ -149,6 +165,14 @@ def make_case(family, i, rng, tier):
         name = enc.expected[k][0]
         nth = sum(1 for e in enc.expected[:k] if e[0] == name)
         case['app_close_at'] = {'name': name, 'nth': nth}
+    if mode == 'bad_close' and enc.expected:
+        # the application calls close() with arguments it refuses; nothing
+        # is written, the connection goes on and Pings are still answered
+        k = rng.randrange(len(enc.expected))
+        name = enc.expected[k][0]
+        nth = sum(1 for e in enc.expected[:k] if e[0] == name)
+        case['bad_close_at'] = {'name': name, 'nth': nth}
+        case['bad_close_reason'] = rng.choice([124, 130, 300])
     if mode == 'bad_tail':
         case.pop('sclose', None)
         case['bad_opcode'] = rng.choice([3, 7, 0xB, 0xF])
@@ -185,6 +209,11 @@ def build(case, with_fault=True):
             if n == 'ping' and not case.get('auto_pong'):
                 ops.append({'op': 'send_pong', 'hex': '6f776e'})
             app.append({'when': {'name': n}, 'do': ops})
+    if case.get('bad_close_at'):
+        app.insert(0, {'when': dict(case['bad_close_at']),
+                       'do': [{'op': 'close', 'code': 1000,
+                               'reason': 'r' * case.get('bad_close_reason',
+                                                        130)}]})
     if case.get('app_close_at'):
         app.insert(0, {'when': dict(case['app_close_at']),
                        'do': [{'op': 'close', 'code': 1000, 'reason': 'bye'}]})
@@ -212,9 +241,33 @@ def build(case, with_fault=True):
 def execute(case):
     if case.get('threaded'):
         return _execute_threaded(case)
+    if 'pair' in case:
+        return _execute_pair(case)
     res = Result()
     sc, enc = build(case)
     tr = netsim.run(sc)
+    return _judge(res, case, sc, enc, tr)
+
+
+def _execute_pair(case):
+    """Two connections alive in one process, advanced in an interleaved
+    order by one consumer: a Ping on one is answered from its own bytes."""
+    res = Result()
+    a, b = case['pair']
+    sa, ea = build(a)
+    sb, eb = build(b)
+    traces = netsim.run_multi(netsim.pair_scenario(sa, sb, case.get('order')))
+    res.stats['probe:two_connections_interleaved'] += 1
+    _judge(res, a, sa, ea, traces[0])
+    h, sig, nt = res.digest, res.sig, res.nontrivial
+    _judge(res, b, sb, eb, traces[1])
+    res.digest = h + res.digest
+    res.sig = sig + '||' + res.sig
+    res.nontrivial = nt or res.nontrivial
+    return res
+
+
+def _judge(res, case, sc, enc, tr):
     res.stats.update(tr.world.stats)
     res.sim_us = tr.world.now
     res.digest = tr.digest()
@@ -258,6 +311,11 @@ def execute(case):
             res.stats['probe:ping_then_close_same_read'] += 1
     if enc.probes.get('ctl_between_fragments'):
         res.stats['probe:ping_between_fragments'] += 1
+    if case.get('bad_close_at'):
+        res.stats['probe:refused_close_call_then_pings'] += 1
+        for c in tr.calls:
+            if c.op == 'close' and (c.outcome != 'raised' or c.wrote):
+                res.xobs.append('C03/close/oversize_reason_accepted')
 
     if not auto:
         res.stats['probe:auto_pong_off'] += 1
